@@ -69,7 +69,8 @@ def jx(n):
         # iterating a dict iterates its keys: `x.element_count | first` is `x.element_count.keys() | first` (canonical form)
         if n.name in ("first", "last", "list", "length", "join", "sort") and inner[0] == "attr" and inner[2] == "element_count":
             inner = ("call", ("attr", inner, "keys"), (), ())
-        return ("filter", n.name, inner, tuple(jx(a) for a in n.args),
+        # `count` is Jinja's built-in alias of `length`
+        return ("filter", "length" if n.name == "count" else n.name, inner, tuple(jx(a) for a in n.args),
                 tuple((k.key, jx(k.value)) for k in n.kwargs))
     if t is nodes.Test:
         return ("test", n.name, jx(n.node), tuple(jx(a) for a in n.args))
@@ -623,7 +624,13 @@ def _join_as_loop(e, line, rel):
         v = ("name", "_joined_item")
         base, elt = elementwise(e[2], v)
         if base != e[2] and not (base[0] == "filter" and base[1] == "map"):
-            return ("for", v, base, (("out", elt, line, rel),), (), line, rel, None)
+            # literal text glued on by `| prefix(..)` / `| suffix(..)` / `~` is text of the loop body
+            pieces = str_pieces(elt)
+            if any(p_[0] == "fmt" for p_ in pieces):
+                body = (("out", elt, line, rel),)
+            else:
+                body = tuple(("text", p_[1], line, rel) if p_[0] == "lit" else ("out", p_[1], line, rel) for p_ in pieces)
+            return ("for", v, base, body, (), line, rel, None)
     return None
 
 
